@@ -58,10 +58,13 @@ entry('SshString', 'RFC 4251 5 string', [string()])
 namelists = ['SshKexAlgorithmVector', 'SshHostKeyAlgorithmVector', 'SshEncryptionAlgorithmVector', 'SshEncryptionAlgorithmVector',
              'SshMacAlgorithmVector', 'SshMacAlgorithmVector', 'SshCompressionAlgorithmVector', 'SshCompressionAlgorithmVector',
              'SshLanguageVector', 'SshLanguageVector']
+kexinit_attrs = ['kex_algorithms', 'host_key_algorithms', 'encryption_algorithms_client_to_server', 'encryption_algorithms_server_to_client',
+                 'mac_algorithms_client_to_server', 'mac_algorithms_server_to_client', 'compression_algorithms_client_to_server',
+                 'compression_algorithms_server_to_client', 'languages_client_to_server', 'languages_server_to_client']
 for n in sorted(set(namelists)):
     entry(n, 'RFC 4251 5 name-list: uint32 length + comma separated US-ASCII names (empty list: length 0)',
           [{'lp': 4, 'body': [{'text': 'ascii'}]}])
-entry('SshKeyExchangeInit', 'RFC 4253 7.1 SSH_MSG_KEXINIT', msg('KEXINIT', [{'raw': 16, 'name': 'cookie'}] + [S(n) for n in namelists] +
+entry('SshKeyExchangeInit', 'RFC 4253 7.1 SSH_MSG_KEXINIT', msg('KEXINIT', [{'raw': 16, 'name': 'cookie'}] + [dict(S(n), attr=a) for n, a in zip(namelists, kexinit_attrs)] +
                                                                  [{'u': 1, 'name': 'first_kex_packet_follows'}, {'u': 4, 'name': 'reserved'}]))
 entry('SshDisconnectMessage', 'RFC 4253 11.1 SSH_MSG_DISCONNECT: uint32 reason, string description (ISO-10646 UTF-8), string language tag',
       msg('DISCONNECT', [{'u': 4}, string('utf-8'), string('ascii')]))
